@@ -3,6 +3,7 @@
 // declaration, runs it, and snapshots everything observable through the public API.
 #pragma once
 
+#include <cstring>
 #include <cerrno>
 #include <nitro/options/parser.hpp>
 
@@ -643,8 +644,31 @@ inline void build(nitro::options::parser& p, const Decl& D)
 static const char* const AMBIENT_ERRNO = "VERIF_AMBIENT_ERRNO";
 inline void set_ambient_errno()
 {
-    if (const char* e = getenv(AMBIENT_ERRNO))
-        errno = atoi(e);
+    const char* e = getenv(AMBIENT_ERRNO);
+    errno = e ? atoi(e) : 0; // always defined: a witness without the pseudo variable means errno == 0
+}
+// A program may own its environment entries (putenv) and change a value IN PLACE: the entry keeps its address, only the
+// bytes change.  The harness sets every bound variable that way (one fixed buffer per variable name, installed with
+// putenv, rewritten for every case), so an implementation that remembers the address of an entry - or anything derived from
+// it - instead of reading the value again is exposed by the second-parse phases.  Values too long for the buffer go
+// through setenv.
+inline void put_in_place(const std::string& name, const std::string& value)
+{
+    static std::map<std::string, char*> bufs;
+    const size_t cap = 8192;
+    if (name.size() + value.size() + 2 > cap)
+    {
+        setenv(name.c_str(), value.c_str(), 1);
+        return;
+    }
+    char*& b = bufs[name];
+    if (!b)
+        b = static_cast<char*>(calloc(cap, 1));
+    memcpy(b, name.c_str(), name.size());
+    b[name.size()] = '=';
+    memcpy(b + name.size() + 1, value.c_str(), value.size() + 1);
+    if (getenv(name.c_str()) != b + name.size() + 1)
+        putenv(b);
 }
 inline void apply_env(const Decl& D, const Env& env)
 {
@@ -663,7 +687,7 @@ inline void apply_env(const Decl& D, const Env& env)
         if (e == env.end())
             unsetenv(it.env.c_str());
         else
-            setenv(it.env.c_str(), e->second.c_str(), 1);
+            put_in_place(it.env, e->second);
     }
 }
 
